@@ -113,6 +113,12 @@ func (c *fakeClient) GetLatestStatus(w *dag.DAG) (*model.Status, error) {
 	case "f":
 		st.Status = dagscheduler.StatusSuccess
 		st.StartedAt = fmtT(parts[1], false)
+	case "c": // stopped: the latest run ended canceled
+		st.Status = dagscheduler.StatusCancel
+		st.StartedAt = fmtT(parts[1], false)
+	case "o": // a start time but no final label (status none)
+		st.Status = dagscheduler.StatusNone
+		st.StartedAt = fmtT(parts[1], false)
 	case "x": // finished with error, legacy time format
 		st.Status = dagscheduler.StatusError
 		st.StartedAt = fmtT(parts[1], true)
